@@ -3,7 +3,8 @@
 //! usage: vh_lsproto <cases.ndjson> <root-dir> [--results]
 //!
 //! Every input line is one run:
-//!   {"run": "<key>", "sched": bool, "split": bool, "steps": [step, ...]}
+//!   {"run": "<key>", "sched": bool, "split": bool, "steps": [step, ...], "caps": {"multilineTokenSupport": bool}?}
+//! caps (C26): the client of this run announces textDocument.semanticTokens.multilineTokenSupport = bool.
 //! split (sched): the wrapper task of ServerContext::task is kept parked at its final lock request
 //! (`cancellations`.M, after it has sent the response) until a "remove" step: the main loop handles the
 //! messages played in between while the answered id is still registered in the cancellation map.
@@ -173,12 +174,24 @@ async fn play(run: &Value, root: &PathBuf, out: &mut Out) {
     let sched = run["sched"].as_bool().unwrap_or(false);
     out.ev(json!({"ev":"reset","run":run["run"]}));
     take_panics();
-    let mut s = Session::start(SessionOpts {
+    let mut opts = SessionOpts {
         root: Some(root.clone()),
         scheduled: sched,
         ..Default::default()
-    })
-    .await;
+    };
+    // C26: "caps":{"multilineTokenSupport":bool} -- the client of this run announces
+    // textDocument.semanticTokens.multilineTokenSupport (absent: the default client, which does not)
+    if let Some(ml) = run["caps"]["multilineTokenSupport"].as_bool() {
+        let td: lsp_types::TextDocumentClientCapabilities = serde_json::from_value(json!({
+            "semanticTokens": {"requests": {"full": true}, "tokenTypes": [], "tokenModifiers": [],
+                               "formats": ["relative"], "multilineTokenSupport": ml}
+        }))
+        .expect("client capabilities");
+        let mut have = opts.capabilities.text_document.take().unwrap_or_default();
+        have.semantic_tokens = td.semantic_tokens;
+        opts.capabilities.text_document = Some(have);
+    }
+    let mut s = Session::start(opts).await;
     let mut from = s.outbox.len();
     let mut sc = Sched {
         split: sched && run["split"].as_bool().unwrap_or(false),
